@@ -1,0 +1,1 @@
+//! Verification doors: hello (cfg(trusttunnel_verif) only)
